@@ -23,15 +23,6 @@ Proof.
   all: try solve [b_facts Hi (ab (A s a)); b_facts Hi (aw (A s a)); brk; fin].
 Qed.
 
-Lemma o_C2 s a s' a' : apc (A s a) = RwLockModel.C2 -> Inv s -> a' <> a -> step s (Step a) = Some s' -> ovf s' = false -> ainv s' a'.
-Proof.
-  intros EP Hi Hne H Hov. destruct (IG _ Hi) as (G1 & G2 & G3 & G4 & G5 & G6 & G7 & G8 & G9 & G10 & G11).
-  other_tac Hi H EP a a'.
-  all: try solve [keep_entry a'].
-  all: try solve [yclause Hi a].
-  all: other_fin.
-Qed.
-
 Lemma o_C3 s a s' a' : apc (A s a) = RwLockModel.C3 -> Inv s -> a' <> a -> step s (Step a) = Some s' -> ovf s' = false -> ainv s' a'.
 Proof.
   intros EP Hi Hne H Hov. destruct (IG _ Hi) as (G1 & G2 & G3 & G4 & G5 & G6 & G7 & G8 & G9 & G10 & G11).
@@ -39,14 +30,4 @@ Proof.
   all: try solve [keep_entry a'].
   all: try solve [yclause Hi a].
   all: other_fin.
-Qed.
-
-Lemma o_C4 s a s' a' : apc (A s a) = RwLockModel.C4 -> Inv s -> a' <> a -> step s (Step a) = Some s' -> ovf s' = false -> ainv s' a'.
-Proof.
-  intros EP Hi Hne H Hov. destruct (IG _ Hi) as (G1 & G2 & G3 & G4 & G5 & G6 & G7 & G8 & G9 & G10 & G11).
-  other_tac Hi H EP a a'.
-  all: try solve [keep_entry a'].
-  all: try solve [yclause Hi a].
-  all: other_fin.
-  all: try solve [b_facts Hi (ab (A s a)); b_facts Hi (aw (A s a)); brk; fin].
 Qed.
